@@ -108,19 +108,37 @@ def futex_leafs(state):
     return L
 
 
+_NEG = {'==': '!=', '!=': '==', '<': '>=', '>=': '<', '>': '<=', '<=': '>'}
+_SWAP = {'==': '==', '!=': '!=', '<': '>', '>': '<', '<=': '>=', '>=': '<='}
+
+
 def cmpof(c):
     """(op, a, b) of a (normalised) comparison with casts stripped from both sides, else None"""
     c = pe.norm_cond(c)
     if is_sym(c) and len(c.args) == 2 and c.op in ('==', '!=', '<', '>', '<=', '>='):
         return (c.op, pe.strip_casts(c.args[0]), pe.strip_casts(c.args[1]))
+    if is_sym(c) and c.op == '!':
+        inner = cmpof(c.args[0])
+        if inner is not None and inner[0] in _NEG:
+            return (_NEG[inner[0]], inner[1], inner[2])
+        return None
+    if is_sym(c) and c.op not in ('&&', '||'):
+        return ('!=', pe.strip_casts(c), 0)        # a bare value tested for truth
     return None
 
 
 def decided(p, op, a, b, taken=True):
+    """the path established `a op b` == taken - however the source spells the test (negated operator with the other outcome,
+    swapped operands)"""
     for c, t, _ in p.decisions:
         x = cmpof(c)
-        if x is not None and x[0] == op and ((x[1] == a and x[2] == b) or (op in ('==', '!=') and x[1] == b and x[2] == a)) and t == taken:
-            return True
+        if x is None:
+            continue
+        for xop, xa, xb, xt in ((x[0], x[1], x[2], t), (_NEG[x[0]], x[1], x[2], not t)):
+            if xt != taken:
+                continue
+            if (xop == op and xa == a and xb == b) or (_SWAP[xop] == op and xa == b and xb == a):
+                return True
     return False
 
 
